@@ -60,7 +60,7 @@ PY_EXN = {
     "AASCV": "basyx.aas.model.base.AASConstraintViolation", "LookupError": "builtins.LookupError",
     "IndexError": "builtins.IndexError", "AttributeError": "builtins.AttributeError",
     "AssertionError": "builtins.AssertionError", "BinasciiError": "binascii.Error",
-    "UnicodeDecodeError": "builtins.UnicodeDecodeError", "JSONDecodeError": "json.JSONDecodeError",
+    "UnicodeDecodeError": "builtins.UnicodeDecodeError", "JSONDecodeError": "json.decoder.JSONDecodeError",
     "XMLSyntaxError": "lxml.etree.XMLSyntaxError", "OSError": "builtins.OSError",
     "RecursionError": "builtins.RecursionError", "OverflowError": "builtins.OverflowError",
 }
@@ -169,6 +169,13 @@ class Translator:
         self.sites.append({"id": sid, "mod": self.m.tag, "fn": self.fn.name, "l0": l0, "l1": l1, "kind": kind,
                            "raises": list(raises), "env": env, "text": (detail or src(node))[:80]})
         return ("prim", sid)
+
+    def raise_site(self, node, classes):
+        """explicit raise statements get a site of their own (only used to check observed events)"""
+        l0, l1 = self.stmt_range
+        self.sites.append({"id": len(self.sites), "mod": self.m.tag, "fn": self.fn.name, "l0": l0, "l1": l1,
+                           "kind": "raise", "raises": list(dict.fromkeys(classes)), "env": "EnvNone",
+                           "text": src(node)[:80]})
 
     def is_flag(self, node):
         """'G' for cls.failsafe / decoder_.failsafe, 'P' for the local parameter `failsafe`,
@@ -540,15 +547,25 @@ class Translator:
         exc = n.exc
         if isinstance(exc, ast.Name):
             if self.excvar and exc.id == self.excvar[0]:
+                self.raise_site(n, list(self.excvar[1]))
                 return [("reraise", [], "RSame")]
+            self.raise_site(n, [self.exn_of(exc)])
             return [("raise", self.exn_of(exc))]
         if isinstance(exc, ast.Call):
             args = self.exprs(exc.args)
             rules, dflt = self.rr_of(exc.func)
             if not rules and isinstance(dflt, tuple):
                 node = ("raise", dflt[1])
+                self.raise_site(n, [dflt[1]])
             else:
                 node = ("reraise", rules, dflt)
+                # classes this statement can produce (for the observation check): fixed targets, and for
+                # `type(e)` the classes named by the rule / the enclosing except clause
+                classes = []
+                for cl, r in rules:
+                    classes += cl if r == "RSame" else [r[1]]
+                classes += list(self.excvar[1]) if dflt == "RSame" else [dflt[1]]
+                self.raise_site(n, classes)
             if self.fn.name == "read_aas_xml_element" and "cannot be constructed" in src(exc):
                 # raised for an XMLConstructables member without constructor: depends on the caller's
                 # argument, not on the document
@@ -735,7 +752,8 @@ def translate():
             raise TranslationError(f"{mod}:{name}: higher-order function reached without constructor")
         bodies[i] = spec(mod, fn.body_ir, carg, flag)
         i += 1
-    fn_lines = {tag: {fn.name: (fn.node.lineno, fn.node.end_lineno) for fn in m.fns.values()}
+    fn_lines = {tag: {fn.name: (min([fn.node.lineno] + [d.lineno for d in fn.node.decorator_list]),
+                                fn.node.end_lineno) for fn in m.fns.values()}
                 for tag, m in mods.items()}
     return {"sites": sites, "order": order, "bodies": bodies, "entries": entries, "fn_lines": fn_lines}
 
